@@ -1248,7 +1248,7 @@ impl Engine for ProofX {
                 p
             }
             "C18" => {
-                let (smax, qmax) = if thorough { (4, 3) } else { (3, 2) };
+                let (smax, qmax) = if thorough { (5, 3) } else { (3, 2) };
                 let cases = masks_upto(12, smax)
                     .into_iter()
                     .map(|(m, k)| json!({"mode": "c18", "s": m, "bound": k, "qmax": qmax}))
